@@ -141,6 +141,10 @@ def time_grid(desc):
         # sqrt-spaced grid with a short end time: consecutive increments differ by 2e-3/600^2 = 5.6e-9 (a lagged or
         # cached time increment is invisible to "close enough" comparisons but not to the step residual)
         return np.linspace(0.0, np.sqrt(1e-3), 601) ** 2
+    if kind == "micro":
+        # steps so small that the mesh ratio alpha*dt/dx^2 is far below 1e-4 (where an incomplete / thresholded
+        # factorisation drops the off-diagonals): uniform 2e-8, then geometric up to 1e-3
+        return np.concatenate([np.arange(0, 201) * 2e-8, np.geomspace(5e-6, 1e-3, 100)])
     if kind == "offset":
         # a late time origin with small steps (t/dt ~ 1e9): the increment t[i+1] - t[i] is exact in floats (Sterbenz), any
         # reformulation that scales or shifts the times before subtracting is not
@@ -275,6 +279,11 @@ def row_order_runs(seed):
         p_i = P_INITIAL[table]
         out.append({"reservoir": "single", "table": table, "table_params": table_params(table), "p_i": p_i, "p_f": 0.5 * p_i, "ratio": 0.5, "nx": 30,
                     "grid": {"kind": "quadratic", "nt": 40, "t_end": 5.0, "seed": seed * 100057 + n}, "schedule": {"kind": sched, "seed": seed * 100069 + n, "levels": 4, "hold": 3}})
+    # very small steps (mesh ratio << 1e-4), drawdown close to 1 and large
+    for table, ratio, nx_ in (("gas", 0.95, 30), ("gas", 0.0125, 12), ("syn_kinked", 0.98, 30)):
+        p_i = P_INITIAL[table]
+        out.append({"reservoir": "single", "table": table, "table_params": table_params(table), "p_i": p_i, "p_f": ratio * p_i, "ratio": ratio, "nx": nx_,
+                    "grid": {"kind": "micro"}, "schedule": {"kind": "constant"}})
     return out
 
 
